@@ -116,15 +116,25 @@ class Schema:
 
 # guards that merely skip work already done / postpone fairly; each is matched on
 # the *normalised source text of the test* in the named function.
-ACCEPTED_GUARDS = {
-    'not self[NodeCount].isleast(node, branch)': 'fairness: only least-applied nodes are considered now (postponement)',
-    '(node, w2) in self[NodesWorlds][branch]': 'redundancy: this (node, world) instance was already applied',
-    'branch.has(add)': 'redundancy: the node to add is already on the branch',
-    'self[WorldIndex].has(branch, pair)': 'redundancy: the access pair is already on the branch',
-    'not self._should_apply(branch)': 'serial rule: world limit (termination); what must still be offered is checked by helpersfold.fold_serial_rule',
-    'not branch.has({Node.Key.world: w})': 'serial rule: a world without sentence nodes needs no successor (termination); fold_serial_rule '
-                                           'checks that every unserial world carrying sentences is offered',
+# Reviewed redundancy / fairness / termination guards, by shape (local variable names are free):
+GUARD_PATTERNS = {
+    r'not self\[NodeCount\]\.isleast\(\w+, branch\)': 'fairness: only least-applied nodes are considered now (postponement)',
+    r'\(\w+, \w+\) in self\[NodesWorlds\]\[branch\]': 'redundancy: this (node, world) instance was already applied',
+    r'branch\.has\(\w+\)': 'redundancy: the node to add is already on the branch',
+    r'self\[WorldIndex\]\.has\(branch, \w+\)': 'redundancy: the access pair is already on the branch',
+    r'not self\._should_apply\(branch\)': 'serial rule: world limit (termination); what must still be offered is checked by helpersfold.fold_serial_rule',
+    r'not branch\.has\(\{Node\.Key\.world: \w+\}\)': 'serial rule: a world without sentence nodes needs no successor (termination); fold_serial_rule '
+                                                            'checks that every unserial world carrying sentences is offered',
 }
+
+
+class _Guards:
+    def __contains__(self, text):
+        import re
+        return any(re.fullmatch(p, text) for p in GUARD_PATTERNS)
+
+
+ACCEPTED_GUARDS = _Guards()
 
 
 class Extractor:
@@ -255,6 +265,16 @@ def const_kinds(t):
     return set()
 
 
+def negate_text(test):
+    "source text of the negation of a test, in the normal form used by ACCEPTED_GUARDS"
+    if isinstance(test, ast.UnaryOp) and isinstance(test.op, ast.Not):
+        return ast.unparse(test.operand)
+    if isinstance(test, ast.Compare) and len(test.ops) == 1 and isinstance(test.ops[0], (ast.NotIn, ast.In)):
+        op = ast.In() if isinstance(test.ops[0], ast.NotIn) else ast.NotIn()
+        return ast.unparse(ast.Compare(left=test.left, ops=[op], comparators=test.comparators))
+    return 'not ' + ast.unparse(test)
+
+
 class Eval:
     def __init__(self, ex: Extractor, rc, attrs: RuleAttrs, S, fn: FuncRef):
         self.ex, self.m, self.rc, self.attrs, self.S, self.fn = ex, ex.m, rc, attrs, S, fn
@@ -318,11 +338,22 @@ class Eval:
                 if skip and text in ACCEPTED_GUARDS:
                     self.guards.append(text)
                     continue
+                # the same guards written the other way round: `if <not guard>: <the rest>` (no else)
+                neg = negate_text(st.test)
+                if not st.orelse and neg in ACCEPTED_GUARDS:
+                    self.guards.append(neg)
+                    r = self.run(st.body, env)
+                    if r:
+                        return r
+                    continue
                 raise self.unsupported(f'rule output is conditional on an unrecognised guard `{text}`')
             if isinstance(st, ast.Return) and st.value is None:
                 return 'return'
             if isinstance(st, ast.Return):
                 v = self.ev(st.value, env)
+                if getattr(self, 'want_value', False):
+                    self.retval = v
+                    return 'return'
                 if isinstance(v, Seq):
                     self.yields.extend(v)
                     return 'return'
@@ -466,6 +497,11 @@ class Eval:
             raise self.unsupported(f'{ast.unparse(e)} with {l!r}, {r!r}')
         if isinstance(e, ast.Tuple):
             return Seq(self.items(e.elts, env))
+        if isinstance(e, ast.IfExp):
+            c = self.ev(e.test, env)
+            if isinstance(c, bool) or c is None:
+                return self.ev(e.body if c else e.orelse, env)
+            raise self.unsupported(f'conditional expression on a symbolic test `{ast.unparse(e.test)[:50]}`')
         if isinstance(e, ast.BoolOp):
             vals = [self.ev(v, env) for v in e.values]
             if all(isinstance(v, bool) or v is None for v in vals):
@@ -622,6 +658,9 @@ class Eval:
                 return self.apply(f, args)
             if n == 'deque' and len(args) == 1:
                 return args[0]
+            modfn = self.module_function(n)
+            if modfn is not None:
+                return self.call_function(modfn, args)
             raise self.unsupported(f'call {n}()')
         raise self.unsupported(f'call {ast.unparse(e)[:60]} -> {f!r}')
 
@@ -652,6 +691,36 @@ class Eval:
             self.yields, self.owner, self.where, self.cur_fn = saved
             self.depth -= 1
         return out
+
+    def module_function(self, name):
+        "a module-level helper function of the module the current rule method lives in"
+        mod = self.cur_fn.module
+        for st in self.m.trees[mod].body:
+            if isinstance(st, ast.FunctionDef) and st.name == name:
+                return FuncRef(mod, name, st)
+        return None
+
+    def call_function(self, fn, args):
+        "inline a plain helper function with (partly symbolic) arguments; its value is what it returns"
+        self.depth += 1
+        if self.depth > 8:
+            raise self.unsupported(f'call chain too deep at {fn.qualname}')
+        a = fn.node.args
+        params = [x.arg for x in a.posonlyargs + a.args]
+        if a.vararg or a.kwarg or len(params) != len(args):
+            raise self.unsupported(f'call of {fn.qualname} with {len(args)} arguments')
+        env = dict(zip(params, args))
+        saved = (self.yields, self.where, self.cur_fn, getattr(self, 'want_value', False), getattr(self, 'retval', None))
+        self.yields, self.where, self.cur_fn, self.want_value, self.retval = [], self.m.floc(fn), fn, True, None
+        self.consulted.add(self.where)
+        try:
+            self.run(fn.node.body, env)
+            if self.yields:
+                raise self.unsupported(f'{fn.qualname} yields')
+            return self.retval
+        finally:
+            self.yields, self.where, self.cur_fn, self.want_value, self.retval = saved
+            self.depth -= 1
 
     def apply(self, f, args):
         n = f[1] if isinstance(f, tuple) and f[0] == 'global' else None
